@@ -133,16 +133,20 @@ pub trait AutoMerge: RemoteSyncHandler {
             offset: 0,
             limit: PROOF_SCAN_LIMIT,
         };
-        match self.scan_proofs(req).await {
+        let result = match self.scan_proofs(req).await {
             Ok(Some((ancestor_commit, proof))) => {
                 self.try_merge_from_ancestor::<T>(
                     log_type,
                     ancestor_commit,
                     proof,
                 )
-                .await?;
-                Ok(false)
+                .await
             }
+            Ok(None) => return Err(ConflictError::Hard.into()),
+            Err(e) => Err(e),
+        };
+        match result {
+            Ok(_) => Ok(false),
             Err(e) => {
                 if e.is_hard_conflict() {
                     Ok(true)
@@ -150,7 +154,6 @@ pub trait AutoMerge: RemoteSyncHandler {
                     Err(e)
                 }
             }
-            _ => Err(ConflictError::Hard.into()),
         }
     }
 
@@ -447,16 +450,20 @@ pub trait AutoMerge: RemoteSyncHandler {
             offset: 0,
             limit: PROOF_SCAN_LIMIT,
         };
-        match self.scan_proofs(req).await {
+        let result = match self.scan_proofs(req).await {
             Ok(Some((ancestor_commit, proof))) => {
                 self.try_merge_from_ancestor::<WriteEvent>(
                     EventLogType::Folder(*folder_id),
                     ancestor_commit,
                     proof,
                 )
-                .await?;
-                Ok(false)
+                .await
             }
+            Ok(None) => return Err(ConflictError::Hard.into()),
+            Err(e) => Err(e),
+        };
+        match result {
+            Ok(_) => Ok(false),
             Err(e) => {
                 if e.is_hard_conflict() {
                     self.folder_hard_conflict(folder_id, options, outcome)
@@ -466,7 +473,6 @@ pub trait AutoMerge: RemoteSyncHandler {
                     Err(e)
                 }
             }
-            _ => Err(ConflictError::Hard.into()),
         }
     }
 
@@ -515,36 +521,51 @@ pub trait AutoMerge: RemoteSyncHandler {
             "auto_merge::try_merge_from_ancestor",
         );
 
-        // Get the patch from local
-        let local_patch = {
+        // Get the patch from local and the leaves of the commit tree
+        let (local_patch, leaves) = {
             let account = self.account();
             let account = account.lock().await;
             match &log_type {
                 EventLogType::Identity => {
                     let log = account.identity_log().await?;
                     let event_log = log.read().await;
-                    event_log.diff_records(Some(&commit)).await?
+                    (
+                        event_log.diff_records(Some(&commit)).await?,
+                        event_log.tree().leaves().unwrap_or_default(),
+                    )
                 }
                 EventLogType::Account => {
                     let log = account.account_log().await?;
                     let event_log = log.read().await;
-                    event_log.diff_records(Some(&commit)).await?
+                    (
+                        event_log.diff_records(Some(&commit)).await?,
+                        event_log.tree().leaves().unwrap_or_default(),
+                    )
                 }
                 EventLogType::Device => {
                     let log = account.device_log().await?;
                     let event_log = log.read().await;
-                    event_log.diff_records(Some(&commit)).await?
+                    (
+                        event_log.diff_records(Some(&commit)).await?,
+                        event_log.tree().leaves().unwrap_or_default(),
+                    )
                 }
                 #[cfg(feature = "files")]
                 EventLogType::Files => {
                     let log = account.file_log().await?;
                     let event_log = log.read().await;
-                    event_log.diff_records(Some(&commit)).await?
+                    (
+                        event_log.diff_records(Some(&commit)).await?,
+                        event_log.tree().leaves().unwrap_or_default(),
+                    )
                 }
                 EventLogType::Folder(id) => {
                     let log = account.folder_log(id).await?;
                     let event_log = log.read().await;
-                    event_log.diff_records(Some(&commit)).await?
+                    (
+                        event_log.diff_records(Some(&commit)).await?,
+                        event_log.tree().leaves().unwrap_or_default(),
+                    )
                 }
             }
         };
@@ -554,7 +575,26 @@ pub trait AutoMerge: RemoteSyncHandler {
             log_type,
             from_hash: Some(commit),
         };
-        let remote_patch = self.client().diff(request).await?.patch;
+        let response = self.client().diff(request).await?;
+        let remote_patch = response.patch;
+
+        // The scan matches single commits by position; make sure
+        // all the commits up to the ancestor are shared otherwise
+        // the event logs have diverged before the ancestor and
+        // merging from it would leave the event logs different
+        {
+            let mut commits = leaves
+                .get(..proof.length)
+                .map(|prefix| prefix.to_vec())
+                .unwrap_or_default();
+            commits.extend(remote_patch.iter().map(|r| *r.commit().as_ref()));
+            let mut tree = CommitTree::new();
+            tree.append(&mut commits);
+            tree.commit();
+            if tree.root() != Some(response.checkpoint.root) {
+                return Err(ConflictError::Hard.into());
+            }
+        }
 
         let result = self.merge_patches(local_patch, remote_patch).await?;
 
@@ -951,6 +991,19 @@ pub trait AutoMerge: RemoteSyncHandler {
                     // matched index
                     let index = proof.indices.last().copied().unwrap();
                     let new_leaves = &leaves[0..=index];
+
+                    // The proof matches a single commit by position,
+                    // keep scanning when the commits before it differ
+                    if !self
+                        .is_shared_ancestor(
+                            request.log_type,
+                            commit_hash,
+                            new_leaves,
+                        )
+                        .await?
+                    {
+                        continue;
+                    }
                     let mut new_leaves = new_leaves.to_vec();
                     let mut new_tree = CommitTree::new();
                     new_tree.append(&mut new_leaves);
@@ -972,6 +1025,31 @@ pub trait AutoMerge: RemoteSyncHandler {
         } else {
             Ok(ScanState::Exhausted)
         }
+    }
+
+    /// Determine if the local commits up to and including a commit
+    /// are shared with the remote event log.
+    ///
+    /// The local commits followed by the commits the remote has after
+    /// the commit must give the root hash of the remote event log.
+    #[doc(hidden)]
+    async fn is_shared_ancestor(
+        &self,
+        log_type: EventLogType,
+        commit: CommitHash,
+        local_commits: &[[u8; 32]],
+    ) -> Result<bool, <Self as RemoteSyncHandler>::Error> {
+        let request = DiffRequest {
+            log_type,
+            from_hash: Some(commit),
+        };
+        let response = self.client().diff(request).await?;
+        let mut commits = local_commits.to_vec();
+        commits.extend(response.patch.iter().map(|r| *r.commit().as_ref()));
+        let mut tree = CommitTree::new();
+        tree.append(&mut commits);
+        tree.commit();
+        Ok(tree.root() == Some(response.checkpoint.root))
     }
 
     /// Determine if a local event log contains a proof
